@@ -814,9 +814,15 @@ package thrift
 //@   assigns \nothing
 
 
+// The text of an exception: its message, or (empty message) a default text that depends on
+// the type id only. The default text comes from a map lookup / Sprintf, which the verifier
+// does not model: that clause is trusted.
+//@ pred excText(t, m) = m != "" ? m : ufstr("thrift.defaultExceptionText", t)
+
 //@ func ApplicationException.Error
 //@   props C18
 //@   ensures e.m != "" ==> same(ret, e.m)
+//@   ensures[trusted] e.m == "" ==> same(ret, ufstr("thrift.defaultExceptionText", e.t)) && len(ret) > 0
 
 //@ func NewProtocolExceptionWithErr
 //@   props C17, C18
@@ -838,10 +844,10 @@ package thrift
 //@   props C18
 //@   requires !isnil(err) && region(err) != 0
 //@   ensures istype(err, *TransportException) ==> istype(ret, *TransportException) && astype(ret, *TransportException).t == astype(err, *TransportException).t
-//@   ensures istype(err, *TransportException) && astype(err, *TransportException).m != "" ==> astype(ret, *TransportException).m == prepend + astype(err, *TransportException).m
+//@   ensures istype(err, *TransportException) ==> astype(ret, *TransportException).m == prepend + excText(astype(err, *TransportException).t, astype(err, *TransportException).m)
 //@   ensures istype(err, *ProtocolException) ==> istype(ret, *ProtocolException) && astype(ret, *ProtocolException).t == astype(err, *ProtocolException).t && astype(ret, *ProtocolException).m == prepend + err.$errtext
 //@   ensures istype(err, *ApplicationException) ==> istype(ret, *ApplicationException) && astype(ret, *ApplicationException).t == astype(err, *ApplicationException).t
-//@   ensures istype(err, *ApplicationException) && astype(err, *ApplicationException).m != "" ==> astype(ret, *ApplicationException).m == prepend + astype(err, *ApplicationException).m
+//@   ensures istype(err, *ApplicationException) ==> astype(ret, *ApplicationException).m == prepend + excText(astype(err, *ApplicationException).t, astype(err, *ApplicationException).m)
 //@   ensures !istype(err, *TransportException) && !istype(err, *ProtocolException) && !istype(err, *ApplicationException) && istype(err, tException) ==>
 //@           istype(ret, *ApplicationException) && astype(ret, *ApplicationException).t == err.$typeid && astype(ret, *ApplicationException).m == prepend + err.$errtext
 //@   ensures !istype(err, *TransportException) && !istype(err, *ProtocolException) && !istype(err, *ApplicationException) && !istype(err, tException) ==>
@@ -945,3 +951,100 @@ package thrift
 //@   ensures[g:lo] Rlo != -3 ==> (Rlo >= 0 ==> err == nil && len(buf) == Rlo && eqbytes(buf, 0, U, 0, Rlo) && rdTake(p.r, Rlo)) && (Rlo < 0 ==> err != nil && rdSame(p.r))
 //@   ensures same(p.r, old(p.r))
 //@   assigns p.rn, p.r.$u, p.r.$readlen, p.r.$lasterr
+
+// ---- FastCodec: the interface contract of payload structs, and the message-level helpers ----
+// Ghost view of a FastCodec value: $size what BLength reports; the buffers most recently handed
+// to FastWriteNocopy / FastRead and how often that happened.
+
+//@ ghost $size int
+//@ ghost $nwrites int
+//@ ghost $lastwrite []byte
+//@ ghost $nreads int
+//@ ghost $lastread []byte
+
+//@ iface FastCodec.BLength
+//@   ensures ret == self.$size && 0 <= ret && ret <= 0x7fffffff
+//@   assigns \nothing
+
+//@ iface FastCodec.FastWriteNocopy
+//@   params buf, bw
+//@   requires len(buf) >= self.$size
+//@   ensures 0 <= ret && ret <= self.$size && self.$nwrites == old(self.$nwrites) + 1 && same(self.$lastwrite, buf)
+//@   assigns buf[0:self.$size], self.$nwrites, self.$lastwrite
+
+//@ iface FastCodec.FastRead
+//@   params buf
+//@   results n, err
+//@   ensures self.$nreads == old(self.$nreads) + 1 && same(self.$lastread, buf)
+//@   ensures err == nil ==> 0 <= n && n <= len(buf)
+//@   assigns self.$nreads, self.$lastread
+
+//@ func FastMarshal
+//@   arith int
+//@   props C11, C12
+//@   requires !isnil(msg)
+//@   ensures len(ret) == msg.$size && fresh(ret) && msg.$nwrites == old(msg.$nwrites) + 1 && same(msg.$lastwrite, ret)
+//@   assigns msg.$nwrites, msg.$lastwrite
+
+//@ func FastUnmarshal
+//@   arith int
+//@   props C03, C11, C12
+//@   requires !isnil(msg)
+//@   ensures msg.$nreads == old(msg.$nreads) + 1 && same(msg.$lastread, buf)
+//@   assigns msg.$nreads, msg.$lastread
+
+//@ func MarshalFastMsg
+//@   arith int
+//@   props C12
+//@   requires !isnil(msg) && sizeOK(len(method))
+//@   ensures len(method) == 0 ==> ret1 != nil && isnil(ret0) && msg.$nwrites == old(msg.$nwrites)
+//@   ensures len(method) > 0 ==> ret1 == nil && fresh(ret0) && len(ret0) == 12 + len(method) + msg.$size && encMsg(ret0, 0, method, msgType, seq) &&
+//@           msg.$nwrites == old(msg.$nwrites) + 1 && region(msg.$lastwrite) == region(ret0) && offset(msg.$lastwrite) == offset(ret0) + 12 + len(method) && len(msg.$lastwrite) == msg.$size
+//@   assigns msg.$nwrites, msg.$lastwrite
+
+//@ func ApplicationException.BLength
+//@   arith int
+//@   props C11
+//@   ensures ret == 15 + len(e.m)
+
+//@ func ApplicationException.FastWrite
+//@   arith int
+//@   props C11
+//@   requires len(b) >= 15 + len(e.m) && sizeOK(len(e.m))
+//@   ensures off == 15 + len(e.m) && encField(b, 0, 11, 1) && encBytes(b, 3, e.m) && encField(b, 7 + len(e.m), 8, 2) && encI32(b, 10 + len(e.m), e.t) && b[14 + len(e.m)] == 0
+//@   assigns b[0:15+len(e.m)]
+
+//@ func ApplicationException.FastWriteNocopy
+//@   arith int
+//@   props C11
+//@   requires len(b) >= 15 + len(e.m) && sizeOK(len(e.m))
+//@   ensures ret == 15 + len(e.m) && encField(b, 0, 11, 1) && encBytes(b, 3, e.m) && encField(b, 7 + len(e.m), 8, 2) && encI32(b, 10 + len(e.m), e.t) && b[14 + len(e.m)] == 0
+//@   assigns b[0:15+len(e.m)]
+
+// FastRead: on success the consumed length is exactly the struct extent given by the grammar
+// (every unknown or differently-typed field is skipped with its exact length); never panics.
+//@ func ApplicationException.FastRead
+//@   arith int
+//@   props C03, C11, C12
+//@   let R = vs.FieldsLenD(b, 65)
+//@   ensures err == nil ==> R >= 0 && off == R
+//@   ensures R >= 0 ==> err == nil
+//@   ensures 0 <= off && off <= len(b)
+//@   assigns e.m, e.t
+//@   loop 1 invariant 0 <= off && off <= len(b) && err == nil
+//@   loop 1 invariant R == vs.Then(off, vs.FieldsLenD(b[off:], 65))
+//@   loop 1 decreases len(b) - off
+
+//@ func UnmarshalFastMsg
+//@   arith int
+//@   props C03, C12
+//@   requires !isnil(msg)
+//@   let hdr = vs.BE32(b, 0)
+//@   let nsz = int(int32(vs.BE32(b, 4)))
+//@   let okhdr = len(b) >= 8 && hdr & 0xffff0000 == 0x80010000 && nsz >= 0 && len(b) >= 12 + nsz
+//@   ensures !okhdr ==> err != nil && msg.$nreads == old(msg.$nreads)
+//@   ensures okhdr ==> len(method) == nsz && eqbytes(method, 0, b, 8, nsz) && seq == int32(vs.BE32(b, 8 + nsz))
+//@   ensures okhdr && hdr & 0xffff == 3 ==> err != nil && msg.$nreads == old(msg.$nreads)
+//@   ensures okhdr && hdr & 0xffff == 3 && vs.FieldsLenD(b[12+nsz:], 65) >= 0 ==> istype(err, *ApplicationException)
+//@   ensures okhdr && hdr & 0xffff != 3 ==> msg.$nreads == old(msg.$nreads) + 1 && region(msg.$lastread) == region(b) && offset(msg.$lastread) == offset(b) + 12 + nsz && len(msg.$lastread) == len(b) - 12 - nsz
+//@   assigns msg.$nreads, msg.$lastread
